@@ -23,6 +23,7 @@ import (
 	"strconv"
 	"strings"
 
+	"github.com/martian-lang/martian/martian/core"
 	"github.com/martian-lang/martian/martian/syntax"
 )
 
@@ -1160,9 +1161,9 @@ func (cs *c17Case) describe() map[string]interface{} {
 func runC17(c *Ctx) {
 	r := c.Res
 	r.Rule = "types: generated MRO source (2 filetypes, 5 fixed + N random/derived structs; arrays up to 3 dims, typed maps of arrays, arrays of maps, structs of structs) compiled by the real compiler; values: type-directed valid JSON, one or two near-miss mutations at random positions (number-as-string, float-for-int, deeper/shallower nesting, missing/extra member, illegal map key, null, other value, out-of-range int, object/array swap), values valid for an assignable source type; rendered compact or with random whitespace and string escapes. Each case: real IsValidJson/FilterJson (+ second FilterJson, + IsValidJson of the result) vs Lean check/filter (verdict enums, output trees with sorted members); monitors on the real code: idempotence, only-drops, null accepted, filter-valid-of-assignable; assignability: full builtin x user table and all ordered pairs of a universe's types vs Lean, reflexivity, array/map/struct component rules. non-trivial = filter output differs from its input, or validation is not clean although the root has the declared container shape; distinct = distinct (type, JSON text)"
-	nUniverses, perUniverse := 12, 4000
+	nUniverses, perUniverse := 16, 5000
 	if c.Thorough {
-		nUniverses, perUniverse = 60, 12000
+		nUniverses, perUniverse = 150, 14000
 	}
 
 	// ---- corpus: lines `<mro type>\t<json text>` evaluated in the fixed universe ----
@@ -1390,6 +1391,51 @@ func c17Judge(c *Ctx, cs *c17Case, reply string, report bool) []string {
 			fail(Violation{Kind: "correspondence", Key: "C17:check-of-filtered-mismatch",
 				What: fmt.Sprintf("IsValidJson of the filtered value differs from the model (%s vs %s)", g.check2, toks[2]),
 				Impl: g.check2, Model: toks[2], Broken: "correspondence C17.case (Martian.Types.check)"})
+		}
+	}
+	// ---- martian/core: LazyArgumentMap.Path("", …) = LazyArgumentMap.filter(dest) ----
+	// Same value as dest.FilterJson of the object (struct: declared members only; typed
+	// map: every member filtered).  Its error is stricter for structs (members whose type
+	// cannot filter are still passed through FilterJson), so only `no error => model ok`
+	// is compared there; for typed maps the error is compared both ways.
+	if !sens && (cs.t.kind == 's' || cs.t.kind == 'm') && cs.v.kind == 'o' && rt.CanFilter() {
+		var args core.LazyArgumentMap
+		if err := json.Unmarshal(cs.text, &args); err == nil && args != nil {
+			res, perr := func() (m json.Marshaler, err error) {
+				defer func() {
+					if p := recover(); p != nil {
+						err = fmt.Errorf("panic: %v", p)
+					}
+				}()
+				return args.Path("", nil, rt, cs.u.lookup)
+			}()
+			if report {
+				r.hist("core-path-filter")
+			}
+			okModel := toks[1] == "ok"
+			var b []byte
+			var pt *c17J
+			if res != nil {
+				var merr, jerr error
+				b, merr = res.MarshalJSON()
+				pt, jerr = c17ParseJSON(b)
+				if perr == nil && (merr != nil || jerr != nil) {
+					fail(Violation{Kind: "property", Key: "C17:core-path-invalid-json",
+						What: fmt.Sprintf("LazyArgumentMap.Path(\"\") (filter to the type) returns no error but its result does not marshal to valid JSON: %s", b),
+						Impl: string(b), Expect: "an error, or valid JSON"})
+					pt = nil
+				}
+			}
+			if (perr == nil && !okModel) || (cs.t.kind == 'm' && perr != nil && okModel) {
+				fail(Violation{Kind: "correspondence", Key: "C17:core-path-verdict-mismatch",
+					What: fmt.Sprintf("LazyArgumentMap.Path(\"\") error (%v) disagrees with the model's filter error class %s", perr, toks[1]),
+					Impl: fmt.Sprint(perr), Model: toks[1], Broken: "correspondence C17 core.LazyArgumentMap.filter"})
+			}
+			if toks[1] != "fatal" && (pt == nil || pt.enc(true) != mTree.enc(true)) {
+				fail(Violation{Kind: "correspondence", Key: "C17:core-path-output-mismatch",
+					What: "LazyArgumentMap.Path(\"\") result differs (as a tree) from the model's filter",
+					Impl: string(b), Model: mTree.enc(true), Broken: "correspondence C17 core.LazyArgumentMap.filter"})
+			}
 		}
 	}
 	// ---- property monitors on the real code ----
